@@ -10,7 +10,7 @@ git checkout -q --detach $(git -C /repo rev-parse HEAD)   # seeded changes are a
 if ! git apply $out/patch_$x.diff 2>>$log; then echo "$id $x APPLY_FAILED" | tee -a $log; exit 2; fi
 t=$(/venv/bin/python -m pytest -q -p no:cacheprovider 2>&1 | tail -1); echo "tests_with_change: $t" >> $log
 PYTHONPATH=$wt /venv/bin/python $out/demo_$x.py >> $log 2>&1; d1=$?; echo "demo_with_change_exit: $d1" >> $log
-VP_REPO=$wt VP_TIMEOUT_SCALE=1.5 /venv/bin/python /verif/vp_check.py --property $id --tier quick --jobs $jobs --no-evidence > $res/${id}_$x.check 2>&1; c=$?
+VP_REPO=$wt VP_TIMEOUT_SCALE=1.5 /venv/bin/python /verif/vp_check.py --property $id --tier quick --jobs $jobs --no-evidence --fail-fast > $res/${id}_$x.check 2>&1; c=$?
 echo "check_exit: $c" >> $log; grep -m3 "^VIOLATION" $res/${id}_$x.check >> $log
 git checkout -q -- . ; git clean -fdq pydbml
 PYTHONPATH=$wt /venv/bin/python $out/demo_$x.py > /dev/null 2>&1; d0=$?; echo "demo_without_change_exit: $d0" >> $log
